@@ -1,7 +1,7 @@
 (* C08: the coherence invariant along arbitrary histories (step, step_f, run). *)
 From Coq Require Import ZArith NArith List Bool Lia.
 From Tinode Require Import Base.Util Pure.Acs Sys.Topic Sys.TopicTac Sys.TopicFrame Sys.TopicNum Sys.TopicNumThm
-  Sys.TopicCoh Sys.TopicCohProofs Sys.TopicCohStep.
+  Sys.TopicCohC08 Sys.TopicCohC08Proofs Sys.TopicCohC08Step.
 Import ListNotations.
 Open Scope Z_scope.
 
